@@ -41,7 +41,7 @@ FAULTS = ["undeclared", "dropped", "bracket", "stray", "typeerr", "comment", "ra
 XTA_FAULTS = {"undeclared", "dropped", "rangetypo", "overflow"}
 # Faults the parser accepts and the type checker reports (after every block is in the position index, from the positions the
 # expressions carry): compared after static analysis on both sides.  `typeerr` is placed by inject(), the others by semantic_faults().
-SEMANTIC = {"typeerr", "sideeffect", "wrongrole", "noeffect"}
+SEMANTIC = {"typeerr", "sideeffect", "wrongrole", "noeffect", "suffix"}
 
 
 def balanced(t):
@@ -194,6 +194,9 @@ def semantic_faults(text, field):
         d = text.rstrip()[-1:] if text.rstrip()[-1:] in ("!", "?") else "!"
         out += [("sideeffect", x + d) for x in ("zca[gi++]", "zca[wf()]", "zca[(gi = 1)]")]
         out += [("wrongrole", x + d) for x in ("gi", "zca", "wf()")]
+        if text.rstrip()[-1:] in ("!", "?"):
+            # the direction is lost: a CSP-style synchronisation in a model whose other synchronisations are input / output
+            out += [("suffix", text.rstrip()[:-1])]
     elif field == "assign":
         out += [("noeffect", x) for x in (text + ", gi + 1", "gi + 1, " + text, "gi == 1")]
         out += [("wrongrole", x) for x in ("zc", text + ", zc")]
